@@ -59,6 +59,8 @@ def main():
                 print(f"{sid} / {p}: rc={c.returncode} {lines[:1]}", flush=True)
         finally:
             sh(["git", "-C", REPO, "checkout", "--", "."])
+            # files a change added (git apply leaves them untracked)
+            sh(["git", "-C", REPO, "clean", "-fdq", "--", "src", "tests", "testdata"])
         summary[sid] = res
         meta["last_run"] = {"tier": args.tier, "results": res}
         meta["caught_by"] = sorted(p for p, v in res.items() if v["rc"] == 1)
